@@ -619,12 +619,30 @@ func describeIndexVar(p *core.Program, info *types.Info, fd *ast.FuncDecl, fobj 
 			}
 		case *ast.ForStmt:
 			init, ok := x.Init.(*ast.AssignStmt)
-			if !ok || len(init.Lhs) != 1 || len(init.Rhs) != 1 || astx.ObjOf(info, init.Lhs[0]) != v {
+			var scope ast.Node = x
+			if x.Init == nil {
+				// `i := start` in front of a condition-only loop: the variable's single definition, every other
+				// modification anywhere in the function must then be a step in one direction
+				var defs []*ast.AssignStmt
+				ast.Inspect(fd.Body, func(n ast.Node) bool {
+					if as, isAs := n.(*ast.AssignStmt); isAs && as.Tok == token.DEFINE && len(as.Lhs) == 1 && len(as.Rhs) == 1 {
+						if id, isID := as.Lhs[0].(*ast.Ident); isID && info.Defs[id] == v {
+							defs = append(defs, as)
+						}
+					}
+					return true
+				})
+				if len(defs) == 1 && !astx.Contains(x, defs[0]) && enclosingLoop(fd.Body, defs[0]) == nil {
+					init, ok = defs[0], true
+					scope = fd.Body
+				}
+			}
+			if !ok || init == nil || len(init.Lhs) != 1 || len(init.Rhs) != 1 || astx.ObjOf(info, init.Lhs[0]) != v {
 				continue
 			}
 			// how is v modified inside the loop?
 			inc, dec, other := false, false, false
-			ast.Inspect(x, func(n ast.Node) bool {
+			ast.Inspect(scope, func(n ast.Node) bool {
 				switch y := n.(type) {
 				case *ast.IncDecStmt:
 					if astx.ObjOf(info, y.X) == v {
